@@ -489,6 +489,27 @@ def fam_handshake(rng, n, tag="hs"):
         out.append(s)
     return out
 
+def fam_handshake_late(rng, n, tag="hsl", expect=("repeat",)):
+    """one peer starts polling one to three seconds after the other: the early peer's sync requests (one
+    every 200 ms, each with a fresh nonce) pile up unanswered, are then answered all at once, and some of the
+    answers are lost.  Which answers count must not depend on anything but the packets: run twice, the per-address
+    event sequences and the moment the session starts running must be the same"""
+    out = []
+    for i in range(n):
+        s = Scen("%s_%d" % (tag, i), players=2, window=rng.choice([2, 8]), lat=rng.choice([5, 20]), seed=rng.randrange(1 << 30),
+                 timeout=5000, notify=3000, inputrun=2, expect=list(expect))
+        s.p2p(1, [0]); s.p2p(2, [1])
+        t0 = rng.choice([1300, 1500, 1900, 2300, 2900])
+        drops = [(j, "drop", 0) for j in range(0, 16) if rng.random() < rng.choice([0.3, 0.5, 0.7])]
+        s.link(2, 1, faults=drops)
+        if rng.random() < 0.5:
+            s.link(1, 2, faults=[(j, "delay", rng.choice([50, 300])) for j in range(0, 16) if rng.random() < 0.3])
+        end = t0 + 5000
+        s.ticks(1, 0, end, 16)
+        s.ticks(2, t0, end, 16)
+        out.append(s)
+    return out
+
 def fam_poll_only(rng, n, tag="pollonly"):
     """two connected sessions that merely poll, default timeouts, poll periods up to 100 ms: never an interruption"""
     out = []
